@@ -518,11 +518,14 @@ func (s *Server) handleRequest(ctx context.Context, req *Request) (*response, ht
 
 	calledMethod, found := s.methods[req.Method]
 	if !found {
-		res.Error = Err(MethodNotFound, nil)
 		s.logger.Trace(
 			"Method not found in request",
 			zap.String("method", log.SanitizeString(req.Method)),
 		)
+		if req.ID == nil { // notification: the server must not reply, not even with an error
+			return nil, header, nil
+		}
+		res.Error = Err(MethodNotFound, nil)
 		return res, header, nil
 	}
 
@@ -530,8 +533,11 @@ func (s *Server) handleRequest(ctx context.Context, req *Request) (*response, ht
 	s.listener.OnNewRequest(req.Method)
 	args, err := s.buildArguments(ctx, req.Params, calledMethod)
 	if err != nil {
-		res.Error = Err(InvalidParams, err.Error())
 		s.logger.Trace("Error building arguments for RPC call", zap.Error(err))
+		if req.ID == nil { // notification: the server must not reply, not even with an error
+			return nil, header, nil
+		}
+		res.Error = Err(InvalidParams, err.Error())
 		return res, header, nil
 	}
 	defer func() {
